@@ -227,7 +227,70 @@ def units(tier):
                       no_enforce=True, harness=H("", post=lem(False)), inputs=["in_cell", "in_z"],
                       replay=mk_replay(shape, mask, "bdbd"),
                       desc=f"dd = 0 with signs alternating along the enumeration, shape {shape_name(shape, mask)}, every cell and every target cell", **common))
+    U += value_units(tier)
     U += comparator_units()
+    return U
+
+
+def value_units(tier):
+    """impose_lower_star_filtration_from_vertices (base class): every cell gets the maximum of its vertices"""
+    U = []
+    shapes = [(2,), (3, 2), (1, 1, 1)] + ([(5,), (1, 3), (2, 1, 1), (3, 3)] if tier == "thorough" else [])
+    for shape in shapes:
+        ncell = 1
+        for sd in shape:
+            ncell *= 2 * sd + 1
+        defs = shape_defs(shape, None) + [f"NCELL={ncell}"]
+        F = fns(False)
+        G = GHOST + """
+double g_vals[NCELL];
+static bool x_is_vertex(size_t c) { return x_dim(c) == 0; }
+/* maximum of the values of the vertices of a cell: for every direction in which the cell has length, either end */
+static double x_vertex_max(size_t cell) {
+  double best = 0; bool first = true;
+  for (unsigned mask = 0; mask < (1u << D); mask++) {
+    size_t v = cell; bool valid = true;
+    for (unsigned i = 0; i < DMAX; i++) if (i < D) {
+      if (x_coord(cell, i) % 2 == 1) v = (mask >> i & 1) ? v + x_mult(i) : v - x_mult(i);
+      else if (mask >> i & 1) valid = false;       /* count each vertex once */
+    }
+    if (valid) { if (first || best < g_vals[v]) best = g_vals[v]; first = false; }
+  }
+  return best;
+}
+static bool vertices_ok(void) { bool ok = data.a == g_vals && X_SIZE <= NCELL; for (size_t c = 0; c < NCELL; c++) if (c < X_SIZE && x_is_vertex(c)) ok = ok && !isnan(g_vals[c]); return ok; }
+"""
+        SUBS = vec_subs([(r"std::max\(", "VP_MAX(", 0)])
+        f_rec = Fn(B, rf"void {CLS_B}<T>::propagate_from_vertices_rec \(int special_dim, int current_dim, std::size_t base\)", "propagate_from_vertices_rec", "",
+                   scopes=[CLS_B], sig_subs=SIG_SUBS, subs=SUBS)
+        f_imp = Fn(B, rf"void {CLS_B}<T>::impose_lower_star_filtration_from_vertices\(\)", "impose_lower_star_filtration_from_vertices", """
+__CPROVER_requires(shape_ok() && vertices_ok() && g_probe < X_SIZE && (!x_is_vertex(g_probe) || g_v0 == g_vals[g_probe]))
+__CPROVER_ensures(g_vals[g_probe] == x_vertex_max(g_probe))
+__CPROVER_ensures(!x_is_vertex(g_probe) || g_vals[g_probe] == g_v0)
+__CPROVER_assigns(g_vals)
+""", scopes=[CLS_B], sig_subs=SIG_SUBS, subs=SUBS, canary=None)
+        f_rec.canary = None
+        nm = "base." + shape_name(shape, None)
+        harness = HARNESS_SETUP + """double nondet_double(void);
+double g_v0;
+int main(void) {
+  setup();
+  data.a = g_vals;
+  for (size_t c = 0; c < NCELL; c++) g_vals[c] = nondet_double();
+  for (size_t c = 0; c < NCELL; c++) if (c < X_SIZE) { bool vert = true; size_t q = c;
+    """ + "".join(f"vert = vert && ((q % {2 * s + 1}) % 2 == 0); q /= {2 * s + 1}; " for s in shape) + """
+    if (vert) __CPROVER_assume(!isnan(g_vals[c])); }
+  g_probe = nondet_size(); __CPROVER_assume(g_probe < X_SIZE); g_v0 = g_vals[g_probe];
+  impose_lower_star_filtration_from_vertices();
+  __CPROVER_assert(0, "VP_REACH");
+  return 0;
+}
+"""
+        U.append(Unit(f"{nm}.impose_lower_star_filtration_from_vertices", "C13", [F["set_up_containers"], f_rec, f_imp],
+                      enforce="impose_lower_star_filtration_from_vertices", includes=["c13_glue.h"], defines=defs, route="B",
+                      bound=f"grid shape {shape}; every cell (ghost probe) and all non-NaN vertex values symbolic", unwind=ncell + 2, globals_=G + "extern double g_v0;\n",
+                      object_bits=10, inputs=["g_probe"], harness=harness, runs=[Run(backend="kissat", timeout=900)],
+                      desc=f"impose_lower_star_filtration_from_vertices on shape {shape_name(shape, None)}: each cell's value becomes the maximum over its vertices; vertex values are kept"))
     return U
 
 
